@@ -24,12 +24,12 @@ def cliMakeFileTypeMapSrc : Fc.PyLite.Fn := {
     .assign "v2" (.tuple []),
     .forIn "v3" (.var "v0") [
       .unpack ["v4", "v5"] (.ext "helper#1" [(.var "v3")]),
-      .ite (.not (.anyOf "v6" (.var "v1") (.cmp .eq (.var "v6") (.var "v4")))) [
+      .ite (.cmp .notIn (.var "v4") (.var "v1")) [
         .assign "v1" (.bin .add (.var "v1") (.tuple [(.var "v4")])),
         .assign "v2" (.bin .add (.var "v2") (.tuple [(.tuple [(.var "v5")])]))
       ] [
         .setIndex "v2" (.call .index [(.var "v1"), (.var "v4")]) (.bin .add (.index (.var "v2") (.call .index [(.var "v1"), (.var "v4")])) (.tuple [(.var "v5")]))
       ]
     ],
-    .ret (.ext "FileTypeMap(mapping=)" [(.comp "v7" (.call .zip [(.var "v1"), (.var "v2")]) (.tuple [(.index (.var "v7") (.lit (.int 0))), (.ext "PatternFilter" [(.index (.var "v7") (.lit (.int 1)))])]) (.lit (.bool true)))])
+    .ret (.ext "FileTypeMap(mapping=)" [(.comp "v6" (.call .zip [(.var "v1"), (.var "v2")]) (.tuple [(.index (.var "v6") (.lit (.int 0))), (.ext "PatternFilter(patterns=)" [(.index (.var "v6") (.lit (.int 1)))])]) (.lit (.bool true)))])
   ] }
